@@ -88,7 +88,7 @@ func lex(s string) ([]rtok, status, string) {
 		case b == '[':
 			j := strings.IndexByte(s[i:], ']')
 			if j < 0 {
-				return nil, stUnsupported, "unterminated [..]"
+				return nil, stMalformed, "unterminated [..]"
 			}
 			j += i
 			inner := s[i+1 : j]
@@ -130,6 +130,9 @@ func lex(s string) ([]rtok, status, string) {
 				out = append(out, rtok{k: kOp, s: string(b), pos: i, end: i + 1})
 				i++
 				continue
+			}
+			if b == ']' {
+				return nil, stMalformed, "] without ["
 			}
 			// '=' alone is listed in math.md but "==" is what the statement's
 			// operator set (17 operators) contains: abstain.
